@@ -303,6 +303,14 @@ LEDGER_QUERIES = [
     "BALANCES AT cost FROM year >= 2019",
     "JOURNAL 'Assets' AT units",
     "SELECT * FROM #prices",
+    "SELECT count(*) AS n, sum(position) AS s",
+    "SELECT account, sum(position) FROM OPEN ON 2020-01-01 CLOSE ON 2020-09-01 GROUP BY account ORDER BY account",
+    "SELECT account, sum(position) FROM CLOSE ON 2020-03-01 GROUP BY account ORDER BY account",
+    "SELECT account, sum(position) FROM OPEN ON 2020-01-01 CLOSE ON 2020-09-01 CLEAR GROUP BY account ORDER BY account",
+    "SELECT account, sum(position) FROM CLEAR GROUP BY account ORDER BY account",
+    "SELECT date, flag, account, position FROM year >= 2020 OPEN ON 2020-02-01",
+    "BALANCES FROM CLOSE ON 2020-06-01 CLEAR",
+    "PRINT FROM OPEN ON 2020-01-01 CLOSE ON 2020-04-01",
     "SELECT name, meta('name'), meta('rank') FROM #commodities",
 ]
 
